@@ -77,7 +77,22 @@ func NewOption(file *paths.Path, match []string) *Option {
 // Clean removes selected directive line from input string.
 // Useful to remove directive text applied on some condition only
 func (o *Option) Clean(input string) string {
-	return strings.Replace(input, o.Raw, o.cleanKeyword(o.Raw), 1)
+	// The first line that is the directive line, not a longer line that starts with it
+	if loc := o.regRaw().FindStringIndex(input); loc != nil {
+		return input[:loc[0]] + o.cleanKeyword(o.Raw) + input[loc[1]:]
+	}
+	return input
+}
+
+// regRaw matches the directive line as a whole line only: another directive
+// line may start with the same text (e.g. a longer profile name).
+func (o *Option) regRaw() *regexp.Regexp {
+	return regexp.MustCompile(`(?m)^` + regexp.QuoteMeta(o.Raw) + `$`)
+}
+
+// Replace replaces the directive line(s) by new in the profile.
+func (o *Option) Replace(profile string, new string) string {
+	return o.regRaw().ReplaceAllLiteralString(profile, new)
 }
 
 // cleanKeyword removes the dirextive keywork (#aa:...) from the input string
